@@ -8,6 +8,8 @@ Streams (all seeded from VERIF_SEED):
   charref-direct handle_charref called directly with names over [0-9a-fA-FxX] and every document encoding shape.
   dammit         an instrumented UnicodeDammit against the model of its two passes.
   fault          a harness TreeBuilder that rejects the first k strategies after j events: final tree == clean parse.
+  tokenizer-pipeline  the real constructor vs the Lean pipeline tokenizer MODEL -> handlers -> construction machine (`c06 pipe`): outcome
+                 class and tree; the marked-section characterisation (`RaisesAt`) in Python vs Lean and against the real outcome.
 """
 import copy
 import json
@@ -41,15 +43,15 @@ MANIFEST = dict(
           "(classes raised must be recorded kinds); injection of every class at every primitive on several documents against `predict`; "
           "UnicodeDammit with individual lookups/decodings/the generator/the log call made to raise against `dammitE`; an instrumented "
           "UnicodeDammit against the model of its passes; fault injection through a harness TreeBuilder (k rejected strategies, acceptance, and MORE strategies offered after the accepted one: the loop stops at the first acceptance); histories across documents and retries (unclosed void elements first, stray end tags between text after; fresh/shared builder), each in its own interpreter, tree node by node against the same markup parsed alone in a fresh interpreter; "
-          "a render stream (trees holding <meta> charset declarations rendered for every output-encoding name shape: the tree's own original_encoding incl. every digit-named codec alias given as from_encoding or declared by the page, ordinary and Python-specific codecs, names special in regex templates; each declaration keeps its prefix and gets the name literally, stated over the live pattern's matches); deep-nesting families around and above the recursion limit with whitespace-preserving elements and string containers; documents empty after the byte-order mark x names that are no text codec; direct oracle (original_encoding names a text codec; no other exception; tree well linked, renderable incl. in its own original encoding, searchable, copyable; ParserRejectedMarkup only with a cause)."),
+          "a render stream (trees holding <meta> charset declarations rendered for every output-encoding name shape: the tree's own original_encoding incl. every digit-named codec alias given as from_encoding or declared by the page, ordinary and Python-specific codecs, names special in regex templates; each declaration keeps its prefix and gets the name literally, stated over the live pattern's matches); deep-nesting families around and above the recursion limit with whitespace-preserving elements and string containers; documents empty after the byte-order mark x names that are no text codec; direct oracle (original_encoding names a text codec; no other exception; tree well linked, renderable incl. in its own original encoding, searchable, copyable; ParserRejectedMarkup only with a cause). OVER THE TOKENIZER MODEL (Model/Tokenizer.lean, the code mirror of CPython's html.parser tied to it by ./check TK; Model/EnvelopeTokenizer.lean; Props/C06 section TokenizerModel): the parse is no longer a recorded callback stream there - `feedClose` = text -> tokenizer model -> bs4's handlers (Adapter.toEvents) -> construction machine (Builder.build), and PROVED for every text, every behaviour of html.unescape/str.lower as total functions and every handler/builder configuration: pipeline_outcome / pipeline_total (exactly one of {tree = build of the text's events, ParserRejectedMarkup}; the only raise of the tokenizer model is parse_marked_section's AssertionError; no loop runs out of fuel), pipeline_tree_well_linked (C03's Good heap, tag stack [0], all stacks and the buffer empty, at the events of every text), rejected_only_if_marked_section (a rejected text contains, at some index, `<![` followed by a non-letter, or by a name + whitespace + one more character whose lowered name is none of the EIGHT keywords of CPython 3.12 - temp cdata ignore include rcdata if else endif; no closing delimiter is needed), accepted_if_no_raising_section, marked_section_raises_iff and turn_rejects_iff (EXACT, both directions, per call of parse_marked_section and per turn of goahead's loop: normal mode and the first `<`/`&` of the buffer starts such a suffix), rejected_if_plain_prefix (the converse at run level when only plain text precedes the section), rejected_texts_leave_no_trace / all_texts_rejected_no_document (k texts rejected part-way, then a text that parses: the document is the parse of that text alone - composed with C03 rejected_strategies_leave_no_trace), tokenizer_model_raises_only_assertion, tokenizer_phases_are_run, envelope_live_tokenizer_model (the envelope with both tokenizer primitives REPLACED by the tokenizer model: the hypothesis about the tokenizer is discharged). NOT proved: the run-level `if` direction in general (rejected <-> SOME turn of the run is a raising turn needs the list of turns of a run as an object). Tie: stream tokenizer-pipeline - str texts of every C06 generator (bytes inputs as latin-1 text), a directed family around `<![` (43 keywords x 20 tails alone and in 36 contexts: comments, CDATA, script/style, attribute values, declarations, PIs, end of input) and sections spliced into generated texts, through the real constructor and through `c06 pipe` (the same feedClose): same outcome class, same tree incl. attributes and positions; the Python statement of RaisesAt = the model's (`c06 raises`); rejected => a RaisesAt index exists, RaisesAt at the first markup => rejected, checked on the real outcome."),
     design="7/C06",
     note=("PARTIAL. Trusted residue, named: `Prims.Within Gen.C06.recorded` - CPython's codecs.lookup raises only LookupError/ValueError/"
           "UnicodeEncodeError; str(bytes,codec,errors) only LookupError/ValueError/UnicodeEncodeError/UnicodeDecodeError/UnicodeError; html.parser's "
-          "goahead only AssertionError/ValueError; int() only ValueError; chr() only ValueError/OverflowError; one-byte decodes only "
+          "goahead only AssertionError/ValueError (for the Lean tokenizer MODEL this is now a theorem - only AssertionError, tokenizer_model_raises_only_assertion / envelope_live_tokenizer_model - and what is left to measurement is (i) that the model is CPython's tokenizer: equality of callback streams and outcome class on every text of ./check TK and of stream tokenizer-pipeline, (ii) html.unescape inside parse_starttag, a total parameter of the model, really raising ValueError on an over-long decimal reference: measured, class `html.unescape-raises`); int() only ValueError; chr() only ValueError/OverflowError; one-byte decodes only "
           "UnicodeDecodeError/UnicodeError; warnings.warn (filters not 'error'), Logger.warning, find_declared_encoding, reset, the parser "
           "constructor and the tree-building callbacks (C03/C04's models) never raise. Measured on every run: each primitive is wrapped and the exact "
           "classes it raises are compared with these lists. That the tree is well linked for every event sequence is C03's theorem "
-          "(parsed_document_well_linked); renderable/searchable/copyable is the Python oracle here and C05/C08/C10/C11/C12's theorems. Non-str/bytes "
+          "(parsed_document_well_linked); renderable/searchable/copyable is the Python oracle here and C05/C08/C10/C11/C12's theorems. Still measured, not modelled: CPython codecs' raise kinds (codecs.lookup, str(bytes,codec,errors), one-byte decodes), html.unescape, the interpreter's recursion limit on deep trees (post-construction operations). Non-str/bytes "
           "markup (TypeError by design) and non-str encoding arguments are outside the quantifier and only recorded."),
     technique="Lean 4 proof with explicit exception classes + generated tables from the live objects (field sets, MROs, injection matrix) + differential correspondence + direct Python oracle + fault injection at builder and primitive level",
 )
@@ -1718,6 +1720,177 @@ def stream_render(ctx):
 
 
 # --------------------------------------------------------------------------------------------
+# stream tokenizer-pipeline: the real constructor against text -> tokenizer MODEL -> handlers -> construction machine
+# --------------------------------------------------------------------------------------------
+MS_KNOWN = {"temp", "cdata", "ignore", "include", "rcdata", "if", "else", "endif"}
+# `RaisesAt` (Model/EnvelopeTokenizer.lean) written down independently: `<![` + (a character that is no ASCII letter | a name and whitespace,
+# both taken greedily without giving back, + one more character, the lowered name no known keyword)
+RAISES_AT = re.compile(r"<!\[(?:[^a-zA-Z]|([a-zA-Z][-_.a-zA-Z0-9]*+)\s*+.)", re.S)
+MS_KEYWORDS = ["CDATA", "cdata", "CdAtA", "temp", "TEMP", "ignore", "include", "INCLUDE", "rcdata", "RCDATA", "if", "IF", "else", "endif", "EndIf",
+               "foo", "x", "cdatax", "CDATA1", "if-x", "if.x_y", "i", "ifx", "e", "İf", "ſ", "Kif", "data", "1", "", " ", " if", "-", "_a", "é", "[",
+               "]", ">", "\x00", "\n", "cdata ", "doctype", "--"]
+MS_TAILS = ["", " ", "[", "[x", "[x]]>", "[x]>", " x]>", "]>", "]]>", "]", ">", "\n", "\n]>", "[x] ]>", "[x]\n]\n>", "[x]]", " ]>", "\x0c", "<p>", "&amp;"]
+MS_CONTEXTS = [lambda s: "a" + s, lambda s: s + "<p>z", lambda s: "<p>" + s + "</p>", lambda s: "<!--" + s + "-->", lambda s: "<!--" + s,
+               lambda s: "<![CDATA[" + s + "]]>", lambda s: "<![CDATA[" + s, lambda s: "<script>" + s + "</script>", lambda s: "<script>" + s,
+               lambda s: "<style>" + s + "</style>x", lambda s: "<STYLE>" + s + "</sTyle >" + s, lambda s: "<!" + s, lambda s: "<!" + s + ">",
+               lambda s: "<a b='" + s + "'>", lambda s: "<a b=" + s + ">", lambda s: "<a " + s + ">", lambda s: "<?" + s + "?>", lambda s: "<?" + s,
+               lambda s: "</" + s + ">", lambda s: "&" + s, lambda s: "&amp;" + s, lambda s: "&#65" + s, lambda s: "<!DOCTYPE " + s + ">",
+               lambda s: "<!DOCTYPE " + s, lambda s: "<textarea>" + s + "</textarea>", lambda s: "<title>" + s, lambda s: s + s,
+               lambda s: "<![if x]>" + s + "<![endif]>", lambda s: "<p>a</p>\n" + s, lambda s: "<" + s, lambda s: "<!-" + s, lambda s: "﻿ \n" + s,
+               lambda s: "<script/>" + s, lambda s: "<br/>" + s + "<br>", lambda s: "<a b='x" + s, lambda s: "</p " + s]
+
+
+def raises_at(text):
+    """indices i at which `<![` stands and `RaisesAt (text.drop i)` holds (Python statement of the Lean predicate)"""
+    out = []
+    i = text.find("<![")
+    while i >= 0:
+        m = RAISES_AT.match(text, i)
+        if m and (m.group(1) is None or m.group(1).lower() not in MS_KNOWN):
+            out.append(i)
+        i = text.find("<![", i + 1)
+    return out
+
+
+def pipeline_real(text):
+    from bs4.exceptions import ParserRejectedMarkup
+    from . import c04
+    try:
+        return "tree|" + c04.shape(c04.real_parse(text, {}))
+    except ParserRejectedMarkup:
+        return "prm"
+    except Exception as ex:  # noqa: BLE001
+        return f"other:{type(ex).__name__}"
+
+
+def pipeline_model(drv, texts):
+    """[(model reply of `c06 pipe` or 'unescape-raises', reply of `c06 raises`)]"""
+    from . import c04, tk
+    from .common import cps
+    needs = drv.ask([f"tk needs {cps(t) or '-'}" for t in texts])
+    cfg = c04.cfg_tokens({})
+    tabs = []
+    for n in needs:
+        try:
+            tabs.append(tk._tab(n))
+        except ValueError:          # html.unescape on an attribute value with an over-long decimal reference: outside the model (measured)
+            tabs.append(None)
+    live = [(t, tb) for t, tb in zip(texts, tabs) if tb is not None]
+    reps = iter(drv.ask([f"c06 pipe {cfg} {tb} {cps(t) or '-'}" for t, tb in live]))
+    pipe = [next(reps) if tb is not None else "unescape-raises" for tb in tabs]
+    rz = drv.ask([f"c06 raises {cps(t) or '-'}" for t in texts])
+    return list(zip(pipe, rz))
+
+
+def gen_marked_sections(ctx):
+    out = []
+    for kw in MS_KEYWORDS:
+        for tail in MS_TAILS:
+            out.append(("ms-alone", "<![" + kw + tail))
+    rest = [(ci, kw, tail) for ci in range(len(MS_CONTEXTS)) for kw in MS_KEYWORDS for tail in MS_TAILS]
+    r = ctx.rng("tokenizer-pipeline", "contexts")
+    if not ctx.thorough:
+        rest = r.sample(rest, 3000)
+    for ci, kw, tail in rest:
+        out.append((f"ms-context", MS_CONTEXTS[ci]("<![" + kw + tail)))
+    return out
+
+
+def stream_tokenizer_pipeline(ctx, drv, cases):
+    """`Props/C06.lean`, section TokenizerModel, against the real constructor: for str texts of every C06 generator (bytes inputs as their latin-1
+    text) and a directed family around `<![`, BeautifulSoup(text, 'html.parser') and `feedClose` (Lean: tokenizer model -> handlers -> machine)
+    must agree on the outcome class and on the tree; the Python statement of `RaisesAt` must agree with the model's (`c06 raises`); and the two
+    directions proved are checked on the real code directly: rejected => some index has RaisesAt (`rejected_only_if_marked_section`); RaisesAt at
+    the first `<`/`&` of the text => rejected (`rejected_if_plain_prefix`)."""
+    name = "tokenizer-pipeline"
+    seen, texts = set(), []
+
+    def add(kind, t):
+        if len(t) <= 3000 and t.count("<") <= 250 and t not in seen:
+            seen.add(t)
+            texts.append((kind, t))
+        else:
+            ctx.count(f"{name}:skipped:" + ("duplicate" if t in seen else "too-long-or-deep"))
+
+    for kind, t in gen_marked_sections(ctx):
+        add(kind, t)
+    # html.unescape raising inside parse_starttag (over-long decimal reference in an attribute value): outside the model, rejected by the code
+    for t in ('<a b="&#' + "9" * 4301 + ';">x', "<p>ok</p><a b=&#" + "1" * 5000 + ";>", "<a b='&#" + "9" * 4300 + ";'>fine"):
+        seen.add(t)
+        texts.append(("unescape-longref", t))
+    pool = []
+    for c in cases:
+        m = c[1]
+        if isinstance(m, str):
+            pool.append(("gen:" + str(c[0]), str.__str__(m)))
+        elif isinstance(m, (bytes, bytearray)):
+            pool.append(("gen-bytes-as-latin1:" + str(c[0]), bytes(m).decode("latin-1")))
+    r = ctx.rng(name, "sample")
+    limit = ctx.n(7000, 120000)
+    if len(pool) > limit:
+        pool = [pool[i] for i in sorted(r.sample(range(len(pool)), limit))]
+    for kind, t in pool:
+        add(kind, t)
+    # every generated text once more with an offending / a harmless section spliced in at a random position
+    for i, (kind, t) in enumerate(list(texts[-ctx.n(1500, 30000):])):
+        rr = ctx.rng(name, "splice", i)
+        sec = "<![" + rr.choice(MS_KEYWORDS) + rr.choice(MS_TAILS)
+        p = rr.randint(0, len(t))
+        add("spliced", t[:p] + sec + t[p:])
+    B = 4000
+    for off in range(0, len(texts), B):
+        chunk = texts[off:off + B]
+        reps = pipeline_model(drv, [t for _, t in chunk])
+        for (kind, t), (model, mraises) in zip(chunk, reps):
+            real = pipeline_real(t)
+            cls = real.split("|", 1)[0].split(":")[0]
+            ctx.count(f"{name}:texts")
+            ctx.count(f"{name}:kind:{kind.split(':')[0]}")
+            ctx.count(f"{name}:real:{cls}")
+            py = raises_at(t)
+            case = {"op": "pipe", "text": t, "kind": kind}
+            ctx.case(("TP", t) if ("<![" in t or cls != "tree") else None, sample={"text": t[:80], "real": real[:80]})
+            if cls == "other":
+                if not capped(ctx, name, real):
+                    ctx.violation(f"BeautifulSoup({t[:60]!r}, 'html.parser') raised {real[6:]}", case=case, expected="a tree or ParserRejectedMarkup",
+                                  observed=real, stream=name)
+                continue
+            if model == "unescape-raises":
+                ctx.count(f"{name}:html.unescape-raises(measured, outside the model)")
+                if cls != "prm":
+                    ctx.violation("html.unescape raises ValueError on an attribute value of this text but the constructor did not reject it",
+                                  case=case, observed=real[:300], stream=name, no_failing_input=True)
+                continue
+            want = ",".join(map(str, py)) or "-"
+            if mraises != want:
+                ctx.corr_disagreements += 1
+                ctx.violation("Lean parseMarkedSection/RaisesAt and the Python statement of RaisesAt disagree on where a marked section raises",
+                              case=case, expected=want, model=mraises, stream=name, no_failing_input=True)
+            if py:
+                ctx.count(f"{name}:has-RaisesAt-index:" + cls)
+            if cls == "prm" and not py:
+                ctx.violation("rejected although no index carries `<![` + non-letter / unknown complete keyword (rejected_only_if_marked_section "
+                              "fails of the real tokenizer)", case=case, observed=real, stream=name, no_failing_input=True)
+            first = min((i for i in (t.find("<"), t.find("&")) if i >= 0), default=-1)
+            if first >= 0 and first in py:
+                ctx.count(f"{name}:RaisesAt-at-first-markup")
+                if cls != "prm":
+                    ctx.violation("the first markup of the text is a raising marked section but the constructor returned a tree "
+                                  "(rejected_if_plain_prefix fails of the real tokenizer)", case=case, observed=real[:300], stream=name,
+                                  no_failing_input=True)
+            if model.split("|", 1)[0] != cls:
+                ctx.corr_disagreements += 1
+                if not capped(ctx, name, "class"):
+                    ctx.violation("the constructor and the model pipeline (tokenizer model -> handlers -> machine) disagree on tree / ParserRejectedMarkup",
+                                  case=case, observed=real[:300], model=model[:300], stream=name, no_failing_input=True)
+            elif model != real:
+                ctx.corr_disagreements += 1
+                if not capped(ctx, name, "tree"):
+                    ctx.violation("the constructor and the model pipeline build different trees", case=case, observed=real[:2000], model=model[:2000],
+                                  stream=name, no_failing_input=True)
+
+
+# --------------------------------------------------------------------------------------------
 # outside the quantifier: recorded only
 # --------------------------------------------------------------------------------------------
 def record_outside(ctx):
@@ -1877,7 +2050,10 @@ def run(ctx: Ctx):
                 "fault: k >= 1 rejected strategies")
     ctx.assumptions = [
         "CPython's html.parser tokenizer raises nothing but AssertionError/ValueError: measured on every generated input by a plain HTMLParser run "
-        "(distribution tok:*), hypothesis of constructor_outcome",
+        "(distribution tok:*), hypothesis of constructor_outcome; for the Lean tokenizer model it is proved (section TokenizerModel) and the model is "
+        "tied to the real constructor by stream tokenizer-pipeline (outcome class and tree) and to html.parser's callbacks by ./check TK",
+        "stream tokenizer-pipeline: html.unescape, str.lower and the html5 entity table are parameters of the model answered by the standard library per "
+        "text; texts longer than 3000 characters or with more than 250 '<' are left to the construct stream (the tree printer recurses)",
         "handle_charref is only called with names matching [0-9]+|[xX][0-9a-fA-F]+ (measured: names_ok)",
         "the handlers other than handle_charref do not raise (C04's models); measured by the outcome oracle",
         "feed writes only attributes that reset()/initialize_soup/the loop header re-assign: instrumented into Gen.feedTouches on every run and measured "
@@ -1935,6 +2111,7 @@ def run(ctx: Ctx):
     stream_fault(ctx, drv)
     stream_sequel(ctx)
     stream_render(ctx)
+    stream_tokenizer_pipeline(ctx, drv, cases)
     stream_inject(ctx, drv)
     record_outside(ctx)
 
@@ -1979,6 +2156,16 @@ def replay(path):
         print("input:", describe(markup), kwargs, "| charset-bearing attribute values:", nvals)
         print("problem:", problem)
         return 1 if problem else 0
+    if c.get("op") == "pipe":
+        t = c["text"]
+        (model, mraises), = pipeline_model(Driver(), [t])
+        real = pipeline_real(t)
+        print("text :", ascii(t))
+        print("real constructor               :", real[:600])
+        print("model (tokenizer -> handlers -> machine):", model[:600])
+        print("RaisesAt indices: python", raises_at(t), "| lean", mraises)
+        ok = real.split("|")[0] in ("tree", "prm") and (model == real or model == "unescape-raises")
+        return 0 if ok else 1
     if c.get("op") == "sequel":
         first, doc = dec_markup(c["first"]), c["doc"]
         want = fresh_process_trees([doc])[0]
